@@ -76,6 +76,7 @@ that does not exist is `NoSuchBucket`, not `NoSuchKey`; 0f31b61 delete_objects o
 0932917 complete_multipart_upload validates the part list and the part files before it changes anything: a failed complete leaves the upload in place, a part that was never uploaded is `InvalidPart`;
 38336b0 operations on an upload that does not exist answer `NoSuchUpload`;
 531fc88 upload_part and upload_part_copy refuse a part number outside 1..10000;
+cf67827 complete_multipart_upload replaces the metadata and the checksum record of the object it replaces;
 b89afe2 ranged reads: covered for all ranges by `C18_get_refines_partial` and `C18_range_check`, the kernel cannot
 evaluate the decimal formatter of `Content-Range`) -/
 
@@ -252,6 +253,24 @@ theorem C18_fixed_part_number_validated :
       [none, none, some .InvalidArgument, some .InvalidArgument, some .InvalidArgument, some .InvalidArgument,
        some .InvalidArgument, none, some .InvalidArgument, some .InvalidArgument, some .InvalidArgument, none, none, none,
        none] := by decide
+
+/-- was fs:stale-metadata-after-complete and fs:stale-checksum-after-complete (the witness histories of `corpus/fs.txt`): a
+    multipart upload created without metadata, completed over an object that has metadata / a recorded checksum: the object
+    read afterwards has the new content, no metadata and no checksum, on both sides; an upload with metadata brings its own -/
+theorem C18_fixed_stale_sidefiles_after_complete :
+    Same [.createBucket bka, .putObject bka kA [1] mdV {} none, .createMultipartUpload alice bka kA none,
+      .uploadPart alice bka kA (some 1) 1 [2], .completeMultipartUpload alice bka kA (some 1) (some [some 1]),
+      .getObject bka kA none, .headObject bka kA] ∧
+    Same [.createBucket bka, .putObject bka kA [1] none { crc32 := some [1] } none, .createMultipartUpload alice bka kA none,
+      .uploadPart alice bka kA (some 1) 1 [2], .completeMultipartUpload alice bka kA (some 1) (some [some 1]),
+      .getObject bka kA none] ∧
+    (run H0 0 {} [.createBucket bka, .putObject bka kA [1] mdV { crc32 := some [1] } none,
+      .createMultipartUpload alice bka kA none, .uploadPart alice bka kA (some 1) 1 [2],
+      .completeMultipartUpload alice bka kA (some 1) (some [some 1]), .getObject bka kA none]).2.getLast? =
+      some (.get [2] 1 none (some (etagOf H0 [2])) [] {}) ∧
+    Same [.createBucket bka, .putObject bka kA [1] mdV { crc32 := some [1] } none,
+      .createMultipartUpload alice bka kA (some [([116], [117])]), .uploadPart alice bka kA (some 1) 1 [2],
+      .completeMultipartUpload alice bka kA (some 1) (some [some 1]), .getObject bka kA none] := by decide
 
 /-- was fs:suffix-range-longer-than-object / fs:suffix-range-huge-panics: the model no longer fails or panics (the answer
     itself is compared by `C18_get_refines_partial`) -/
